@@ -68,7 +68,7 @@ impl Family for G0 {
             ("pdata.txt.ktl", Mode::Pass { password: Hx(b"pass123".to_vec()), salt: Hx(vec![0; 32]) }, None)
         } else {
             match golden_keys() {
-                Some((sk, alice)) => ("data.txt.ktl", Mode::Key { s_priv: Hx(vec![1; 32]), r_priv: Hx(sk.to_vec()), e_priv: None, payload: None }, Some(alice)),
+                Some((sk, alice)) => ("data.txt.ktl", Mode::Key { s_priv: Hx(vec![1; 32]), r_priv: Hx(sk.to_vec()), e_priv: None, payload: None, omit_e_pub: false }, Some(alice)),
                 None => {
                     out.violations.push(viol("C06", "golden_keyring_unusable", "src/cli/tests/keyring.txt does not parse or bob's key does not unlock with 'bob'".into()));
                     return out;
